@@ -250,20 +250,28 @@ def run_config(config: str, rows):
     return out
 
 
+TIE_FILES = ("prims/FastPathGen.v", "prims/FastPathGenEq.v", "prims/LockGen.v", "prims/LockGenEq.v", "prims/SemGen.v",
+             "prims/SemGenEq.v", "prims/LimiterGen.v", "prims/LimiterGenEq.v")
+
+
 def check(tier: str) -> int:
     rep = core.Report("C08", tier)
     rep.assumptions = core.TRUSTED_BASE_COMMON + [
         "the shape table prims/FastPath.v: 13 rows are regenerated from /repo's source on every run by the fail-closed translator tools/translate_fastpath.py and proved equal to the table (FastPathGenEq.v); all rows are additionally validated against the real operations on stock asyncio, eager task factory and uvloop",
+        "rows 5-7 (Lock / Semaphore / CapacityLimiter acquire) are ALSO proved on the regenerated code: the entry segments that tools/translate_lock.py / translate_prims.py regenerate on this run, interpreted (LockImp.exec / PrimImp.exec) with the caller's scope effectively cancelled at entry, end at the cancellation check with nothing changed (C08_tie_lock/sem/lim_cancelled_entry_noeffect; for the limiter for every state and borrower, the check precedes both RuntimeError tests; for Lock/Semaphore on the uncontended path, the contended path has no check and behaves as the live call); the interpreters treat an effect before the check as stuck. Trusted there: the translators' mapping and the reading of a fresh checkpoint_if_cancelled() (raises when the scope is effectively cancelled: C08_ckif_suspends_iff_effectively_cancelled, C03_ckif_spin_terminates on the S machine; no-op otherwise)",
         "functools.reduce: rows 18 (non-yielding reducer over a non-empty input) and 22 (zero invocations); before the F22 fix reduce delegated its checkpoint to the awaited callback",
         "states in which the operation must really wait are governed by C03",
     ]
-    # tie T: regenerate the shapes from the source (fail-closed); a refusal leaves a FastPathGen.v that does not compile
-    import subprocess, sys as _sys
-    env = dict(__import__("os").environ, VERIF_REPO=str(core.REPO))
-    tr = subprocess.run([_sys.executable, str(core.VERIF / "tools" / "translate_fastpath.py")], env=env,
-                        stdout=subprocess.PIPE, stderr=subprocess.STDOUT, text=True)
-    rep.coverage["translator"] = tr.stdout.strip()[-400:]
-    proofs_ok = core.proof_stage(rep, "props/C08.v")
+    # tie T: regenerate the shapes (translate_fastpath.py) and the Lock / Semaphore / CapacityLimiter segments
+    # (translate_lock.py, translate_prims.py: rows 5-7 are also proved on them, C08_tie_*) from the source under test
+    # and rebuild the cone, all under the `tiegen` lock (harness/tiegen.py); a refusal leaves a *Gen.v that does not compile
+    import tiegen
+    t_rc, t_out, proofs_ok = tiegen.translate_and_prove(
+        rep, "props/C08.v", ["translate_fastpath.py", "translate_lock.py", "translate_prims.py"])
+    tie_T, tie_T_broken = tiegen.describe(rep, t_rc, t_out, proofs_ok, TIE_FILES)
+    tie_T.pop("segments", None)
+    rep.coverage["translator"] = "; ".join(tie_T["translator_output"])[-900:]
+    rep.coverage["tie_T"] = tie_T
     exe = core.build_driver("fastpath", "FastPath")
     rows = sorted(ROWS)
     cases, expected, meta = [], [], []
@@ -340,6 +348,7 @@ def check(tier: str) -> int:
     tie = []
     if not proofs_ok:
         tie.append("proof obligation: " + str(rep.coverage.get("proof_failure", {}).get("where")))
+        tie += tie_T_broken
     if disagreements:
         tie.append("shape table FastPath.row_shape vs real operation: " + "; ".join(
             f"{ROWS[m[1]]} ({'cancelled' if m[2] else 'live'}, {m[0]}): observed {e}, shape says {o}" for m, c, e, o in disagreements[:3]))
@@ -353,7 +362,7 @@ def check(tier: str) -> int:
     if vanished:
         tie.append("API census: placed operations no longer found in the source: " + ", ".join(vanished))
     if tie and not hits and not shits and not it_part["hits"]:
-        rep.violation("; ".join(tie), {"kind": "tie", "broken": tie, "case": (sdis[0] if sdis else None)}, no_input=True)
+        rep.violation("; ".join(tie), {"kind": "tie", "broken": tie, "case": (sdis[0] if sdis else None), "tie_T": tie_T}, no_input=True)
 
     rep.coverage.update({
         "api_census": {"placed": census_summary, "unplaced": unplaced, "vanished": vanished,
